@@ -78,6 +78,9 @@ def saslprep(data: str, prohibit_unassigned_code_points: bool = True) -> str:
     data = unicodedata.ucd_3_2_0.normalize("NFKC", data)
 
     in_table_d1 = stringprep.in_table_d1
+    if not data:
+        # everything was mapped to nothing
+        return data
     if in_table_d1(data[0]):
         if not in_table_d1(data[-1]):
             # RFC3454, Section 6, #3. If a string contains any
